@@ -17,27 +17,30 @@ from mc.runner import Stats
 ID = "C39"
 LEVEL = "model_checking"
 TECHNIQUE = "explicit-state BFS over two real Telnet objects with FIFO channels; cycle detection on the delivery subgraph"
-RULE = ("BFS over histories of request(side, will|wont|do|dont, option) / deliver(direction) on two real Telnet endpoints whose "
+RULE = ("BFS over histories of request(side, will|wont|do|dont, option[, chained]) / deliver(direction) on two real Telnet endpoints "
+        "(a chained request makes the application issue, from inside the callback of that request's Deferred, the follow-up request "
+        "for the same option: the opposite request after success, the same request after a refusal) whose "
         "enableLocal/enableRemote policy accepts exactly the options the side may itself request (policy pairs: every combination of "
         "{accept-all, accept-none, local-only, remote-only} for one option; all/all, all/none, disjoint and local/remote-split policies for "
         "two options). A request that is refused on the spot (AlreadyNegotiating/AlreadyEnabled/AlreadyDisabled) changes nothing and "
         "merges with its source state, so the search runs to a fixpoint over an UNBOUNDED number of requests (quick tier: <= 4 "
         "effective requests for the largest two-option configuration). non-trivial = distinct canonical states with a message in flight "
         "while a request is pending, i.e. genuine interleavings")
-BOUNDS = {"quick": "1 option: fixpoint (unbounded requests) for 16 policy pairs; 2 options: fixpoint for 4 restricted policy pairs, "
-                   "<= 4 effective requests (all deliveries) when both sides accept everything",
-          "thorough": "fixpoint (unbounded number of requests) for every configuration, including 2 options with both sides accepting "
-                      "everything (28880 canonical states, depth 20)"}
+BOUNDS = {"quick": "1 option: fixpoint (unbounded requests, plain and chained) for 16 policy pairs; 2 options: fixpoint for 4 restricted policy "
+                   "pairs (chained requests in 3 of them); both sides accepting everything: <= 4 effective plain requests, and <= 3 effective "
+                   "requests with chained ones",
+          "thorough": "fixpoint (unbounded number of plain and chained requests) for every configuration except 2 options with both sides "
+                      "accepting everything: there fixpoint for plain requests (28880 states) and <= 4 effective requests with chained ones"}
 ASSUMPTIONS = [
     "channels are reliable FIFO per direction and carry whole 3-byte negotiation commands (segmentation is C38's subject)",
     "canonical state = per side and option (us.state, us.negotiating, him.state, him.negotiating, onResult set?) read from the documented "
-    "options attribute, both queues, the multiset of unfired requests and (two options) the number of effective requests; fired requests are dropped "
+    "options attribute, both queues, the multiset of unfired requests (with their chained flag) and (two options) the number of effective requests; fired requests are dropped "
     "after their fire count was checked because nothing references them again",
     "'negotiation loop' = a cycle among canonical states using delivery transitions only; 'diverges' = more than 6 messages per option in flight in one direction "
     "(a correct endpoint has at most one outstanding request per option and answers each message at most once)",
 ]
-MIN = {"quick": {"states": 7000, "nontrivial": 7000, "outcomes": 10, "transitions": 40000},
-       "thorough": {"states": 22000, "nontrivial": 21000, "outcomes": 10, "transitions": 380000}}
+MIN = {"quick": {"states": 20000, "nontrivial": 20000, "outcomes": 14, "transitions": 150000},
+       "thorough": {"states": 100000, "nontrivial": 100000, "outcomes": 14, "transitions": 1000000}}
 
 OPTS = [b"\x01", b"\x03"]
 KINDS = ["will", "wont", "do", "dont"]
@@ -109,33 +112,63 @@ CTL = {"viol": 0, "pendcap": False}   # search control: stop expanding once 20 v
 OUT = set()       # outcome classes seen by apply (refused requests do not create new states, so on_state misses them)
 
 
+OPPOSITE = {"will": "wont", "wont": "will", "do": "dont", "dont": "do"}
+
+
+def _allowed(e, kind, opt):
+    if kind == "will":
+        return opt in e.acc_local
+    if kind == "do":
+        return opt in e.acc_remote
+    return True
+
+
+def issue(st, side, kind, oi, chain, chained_from=None):
+    """Issue one request on the real endpoint.  chain=1: when this request completes, the application issues
+    the follow-up request for the same option *from inside the Deferred's callback* (the opposite request after a
+    success, the same request again after a refusal), the ordinary way of sequencing negotiations."""
+    opt = st.opts[oi]
+    rec = {"side": side, "kind": kind, "opt": oi, "fired": 0, "result": None, "chain": chain}
+    st.reqs.append(rec)
+
+    def ok(r, rec=rec):
+        rec["fired"] += 1
+        rec["result"] = "ok"
+
+    def err(f, rec=rec):
+        rec["fired"] += 1
+        rec["result"] = f.type.__name__
+
+    def follow(_, rec=rec):
+        k2 = OPPOSITE[kind] if rec["result"] == "ok" else kind
+        rec["chain"] = 0
+        if _allowed(st.ep[side], k2, opt):
+            OUT.add("chained-from-callback:%s:%s->%s" % (kind, rec["result"], k2))
+            issue(st, side, k2, oi, 0, chained_from=kind)
+    try:
+        d = getattr(st.ep[side], kind)(opt)
+        immediate = bool(getattr(d, "called", False))
+        d.addCallbacks(ok, err)
+        if chain and not immediate:
+            d.addBoth(follow)
+        else:
+            rec["chain"] = 0
+    except Exception as e:
+        st.errors.append(("Telnet.%s:exception:%s@%s" % (kind, type(e).__name__, _where(e)), repr(e)))
+        immediate = True
+    rec["immediate"] = immediate
+    if not immediate:
+        st.effective += 1
+        OUT.add("request-sent:" + kind)
+    else:
+        OUT.add("request-refused-on-the-spot:" + str(rec["result"]))
+
+
 def apply(st, ev):
     if ev[0] == "req":
-        _, side, kind, oi = ev
-        opt = st.opts[oi]
-        rec = {"side": side, "kind": kind, "opt": oi, "fired": 0, "result": None}
-        st.reqs.append(rec)
-
-        def ok(r, rec=rec):
-            rec["fired"] += 1
-            rec["result"] = "ok"
-
-        def err(f, rec=rec):
-            rec["fired"] += 1
-            rec["result"] = f.type.__name__
-        try:
-            d = getattr(st.ep[side], kind)(opt)
-            immediate = bool(getattr(d, "called", False))
-            d.addCallbacks(ok, err)
-        except Exception as e:
-            st.errors.append(("Telnet.%s:exception:%s@%s" % (kind, type(e).__name__, _where(e)), repr(e)))
-            immediate = True
-        rec["immediate"] = immediate
-        if not immediate:
-            st.effective += 1
-            OUT.add("request-sent:" + kind)
-        else:
-            OUT.add("request-refused-on-the-spot:" + str(rec["result"]))
+        side, kind, oi = ev[1], ev[2], ev[3]
+        chain = ev[4] if len(ev) > 4 else 0
+        issue(st, side, kind, oi, chain)
         st.collect()
     else:
         _, d = ev
@@ -164,16 +197,16 @@ def enabled(st):
             e = st.ep[side]
             for oi, opt in enumerate(st.opts):
                 for kind in KINDS:
-                    if kind == "will" and opt not in e.acc_local:
-                        continue
-                    if kind == "do" and opt not in e.acc_remote:
+                    if not _allowed(e, kind, opt):
                         continue
                     if sum(1 for r in st.reqs if r["fired"] == 0 and r["side"] == side and r["opt"] == oi) >= 2:
                         # never on the unchanged tree (a second request is refused on the spot); keeps the space
                         # finite when a faulty endpoint lets unanswered requests pile up
                         CTL["pendcap"] = True
                         continue
-                    evs.append(("req", side, kind, oi))
+                    evs.append(("req", side, kind, oi, 0))
+                    if st.cfg.get("chain", True):
+                        evs.append(("req", side, kind, oi, 1))
     for d in (0, 1):
         if st.q[d]:
             evs.append(("dlv", d))
@@ -188,7 +221,7 @@ def _optstate(e, opt):
 
 def canon(st):
     sides = tuple(tuple(_optstate(e, o) for o in st.opts) + (getattr(e, "state", "data"),) for e in st.ep)
-    pend = tuple(sorted((r["side"], r["kind"], r["opt"]) for r in st.reqs if r["fired"] == 0))
+    pend = tuple(sorted((r["side"], r["kind"], r["opt"], r["chain"]) for r in st.reqs if r["fired"] == 0))
     eff = st.effective if st.cfg.get("budget") is not None else 0
     return (sides, tuple(st.q[0]), tuple(st.q[1]), pend, eff)
 
@@ -252,14 +285,22 @@ def configs(tier):
     names = ["all", "none", "local", "remote"]
     for a in names:
         for b in names:
-            out.append({"nopt": 1, "pol": [[a], [b]], "budget": None, "depth": 40})
+            out.append({"nopt": 1, "pol": [[a], [b]], "budget": None, "depth": 40, "chain": True})
     two = [(["all", "all"], ["all", "all"]), (["all", "all"], ["none", "none"]), (["all", "none"], ["none", "all"]),
            (["local", "local"], ["remote", "remote"]), (["all", "local"], ["remote", "all"])]
     for i, (a, b) in enumerate(two):
-        if tier == "quick":
-            out.append({"nopt": 2, "pol": [a, b], "budget": 4 if i == 0 else None, "depth": 40})
+        base = {"nopt": 2, "pol": [a, b], "depth": 80}
+        if i == 0:      # both sides accept everything: the largest space
+            if tier == "quick":
+                out.append(dict(base, budget=4, chain=False))
+                out.append(dict(base, budget=3, chain=True))
+            else:
+                out.append(dict(base, budget=None, chain=False))
+                out.append(dict(base, budget=4, chain=True))
+        elif i == 4 and tier == "quick":
+            out.append(dict(base, budget=None, chain=False))
         else:
-            out.append({"nopt": 2, "pol": [a, b], "budget": None, "depth": 80})
+            out.append(dict(base, budget=None, chain=True))
     return out
 
 
